@@ -33,7 +33,7 @@ RULE = (
 )
 ASSUMPTIONS = ["bodies whose value is needed to choose a branch (dispatch, bind source, case dispatch, Map iterables) count as needed"]
 FLOORS = {"constructions_checked": (1500, 30000), "evaluations_checked": (4000, 80000), "skipped_bodies_confirmed": (1500, 30000),
-          "windows_checked": (2000, 20000), "apply_order_checked": (100, 1000), "definition_time_checks": (60, 600), "namespace_default_runs_at_evaluation": (60, 600), "late_dispatch_evaluations": (400, 4000)}
+          "windows_checked": (2000, 20000), "apply_order_checked": (100, 1000), "definition_time_checks": (60, 600), "namespace_default_runs_at_evaluation": (60, 600), "late_dispatch_evaluations": (400, 4000), "selected_step_orders": (100, 1000)}
 SHARDS_QUICK = 4
 
 
@@ -389,6 +389,53 @@ def apply_order(ctx, r):
         ctx.violation("apply-order", f">> ran {order}, expected source before parameters before step: {expected}", {"program": program, "options": o})
 
 
+def selected_step_order(ctx, r, case):
+    """`source >> step` where the step itself is chosen by a dataset (switch / case / bind on a dataset), also as a
+    dataset callback: the source is produced first, the selecting dataset afterwards, and when the source fails the
+    selector is never needed."""
+    from labrea import case as case_, switch
+
+    log = Log()
+
+    def mk(name, value, fail=False):
+        def f(a=Option("A", 0)):
+            log.hit("body", name)
+            if fail:
+                raise ValueError("source cannot be produced")
+            return value
+
+        f.__name__ = name
+        return f
+
+    kind = r.choice(["switch", "case", "bind"])
+    fails = r.random() < 0.3
+    as_callback = r.random() < 0.35 and not fails
+    src = dataset.nocache(mk("source", 5, fail=fails))
+    mode = dataset.nocache(mk("mode", "double"))
+    double, negate = (lambda v: ("double", v)), (lambda v: ("negate", v))
+    if kind == "switch":
+        step = switch(mode, {"double": double, "negate": negate})
+    elif kind == "case":
+        step = case_(mode).when(lambda m: m == "double", double).otherwise(negate)
+    else:
+        step = mode.bind(lambda m: Option("Z", double if m == "double" else negate))
+    if as_callback:
+        expr = dataset.nocache(mk("source", 5), callback=step)
+    else:
+        expr = src >> step
+    got = observe(expr.evaluate, {"A": 1})
+    order = [e[2] for e in log.events]
+    ctx.evaluations += 1
+    ctx.count("selected_step_orders")
+    want_order = ["source"] if fails else ["source", "mode"]
+    ok_value = got[0] == "err" if fails else got == ("ok", ("T", (("s", "double"), ("i", 5))))
+    if order != want_order or not ok_value:
+        ctx.violation("apply-order", f"source >> step selected by a dataset ({kind}{', as callback' if as_callback else ''}{', failing source' if fails else ''}): bodies ran {order}, "
+                      f"expected {want_order}; value {short(got)}", {"family": "selected-step", "case": case, "shard": ctx.shard, "shards": ctx.shards})
+        return
+    ctx.nontrivial(spec_hash(["selected-step", kind, fails, as_callback]))
+
+
 def run(ctx):
     rng = ctx.rng
     dicts = directed.dictionaries()
@@ -398,6 +445,7 @@ def run(ctx):
     for i in range(ctx.n(120, 1200)):
         apply_order(ctx, case_rng(ctx, 777_000 + i))
         late_dispatch(ctx, case_rng(ctx, ("late", i)), i)
+        selected_step_order(ctx, case_rng(ctx, ("selstep", i)), i)
     for i, p in enumerate(directed.programs()):
         if i % ctx.shards != ctx.shard:
             continue
@@ -418,7 +466,10 @@ def run(ctx):
 
 def replay(ctx, rep):
     w = rep["witness"]
-    if w.get("family") == "late-dispatch":
+    if w.get("family") == "selected-step":
+        ctx.shard, ctx.shards = w.get("shard", 0), w.get("shards", 1)
+        selected_step_order(ctx, case_rng(ctx, ("selstep", w["case"])), w["case"])
+    elif w.get("family") == "late-dispatch":
         ctx.shard, ctx.shards = w.get("shard", 0), w.get("shards", 1)
         late_dispatch(ctx, case_rng(ctx, ("late", w["case"])), w["case"])
     elif "options" in w and "program" in w:
